@@ -93,6 +93,16 @@ Theorem pool_rules_needed :
 Proof. exact pool_rules_needed_proved. Qed.
 Print Assumptions pool_rules_needed.
 
+(* the generated admission table of the snapshot pool (pool_blocks, from
+   workerPool.canSchedule / canSave / canStream / inProgress) is needed: if a save job is
+   not kept waiting by an ongoing stream of the shard, both are inside PrepareSnapshot *)
+Theorem pool_admission_needed :
+  (let st := run (cfg_save_beside_stream Disk 2) (init 5) stream_then_save_schedule in
+   calls st = [(2, MPrepare); (3, MPrepare)] /\ overlap core core st = true)
+  /\ calls (run (gen_cfg Disk 2) (init 5) stream_then_save_schedule) = [(2, MPrepare)].
+Proof. exact pool_admission_needed_proved. Qed.
+Print Assumptions pool_admission_needed.
+
 (* ---- the sequential apply path ---- *)
 (* the indexes handed to Update are strictly increasing, for every task queue *)
 Theorem update_indexes_strictly_increasing :
